@@ -2667,7 +2667,16 @@ class MpiCheck(dst.Check):
         return {
             # receives (or probes) look into the 'small' mailbox first and eager sends into the 'large' one first:
             # with smpi/async-small-thresh > 0 two messages / two receives of one stream can be matched out of order
-            'mailbox_split_order': lambda plan, cls, msg: cls in ('overtake', 'recv-order', 'probe-order', 'stuck-match') and athr(plan) > 0,
+            'mailbox_split_order': lambda plan, cls, msg: cls in ('overtake', 'recv-order', 'probe-order', 'stuck-match',
+                                                                  # (a message delivered to the wrong receive of its stream also shows as
+                                                                  #  wrong content / count / truncation flag of both receives)
+                                                                  'bytes', 'count', 'count-type', 'trunc-spurious', 'trunc-missed',
+                                                                  'psm-copy', 'status') and athr(plan) > 0,
+            # same defect, any symptom that is about which message a receive got (content, source, count, truncation flag,
+            # global buffers...): everything but the run not finishing or crashing
+            'mailbox_split_any_symptom': lambda plan, cls, msg: athr(plan) > 0 and not cls.startswith(
+                ('deadlock', 'hang', 'crash', 'abort', 'trunc-stall', 'layout-', 'pack', 'unpack', 'group-', 'comm-',
+                 'inter-', 'psm-canary', 'global-leak')),
             # a receive smaller than the threshold waits in the small mailbox, the oversized send goes to the large one
             'trunc_small_recv_first': lambda plan, cls, msg: cls == 'trunc-stall' and athr(plan) > 0,
             # MPI_Testall completes individual requests although it returns flag=0; their status is lost
